@@ -23,7 +23,7 @@ VERIF = os.path.dirname(os.path.dirname(os.path.abspath(__file__)))
 PY = '/venv/bin/python'
 
 
-def sh(cmd, cwd=None, env=None, timeout=600):
+def sh(cmd, cwd=None, env=None, timeout=int(os.environ.get('HIDVERIF_IMPORT_TIMEOUT', '600'))):
     r = subprocess.run(cmd, cwd=cwd, env=env, capture_output=True, text=True, timeout=timeout)
     return r.returncode, r.stdout + r.stderr
 
